@@ -222,37 +222,47 @@ def BatchParents (L : Log) (logs : List (OMap × OMap)) : Prop := ∀ p ∈ logs
 def BatchCovered (logs : List (OMap × OMap)) : Prop :=
   ∀ p ∈ logs, CoveredBy (asLog p.1) (p.2.map (·.hash))
 
+theorem joinedEntries_cons (acl : Acl) (L : Log) (es hs : OMap) (rest : List (OMap × OMap)) :
+    joinedEntries acl L ((es, hs) :: rest) =
+      match join acl.canAppend L es hs L.id with
+      | .ok L' => es ++ joinedEntries acl L' rest
+      | .error _ => joinedEntries acl L rest := rfl
+
+/-- **`replicationLoadComplete` keeps the log closed** when every log of the batch brings its own
+parents, whichever logs are rejected (a rejected log changes nothing; a log that contains a rejected
+entry reachable from its heads is rejected as a whole, children included); and if moreover the
+heads of each log cover it, every reported entry is in the log -/
 theorem joinAll_closed {acl : Acl} {U : List Entry} (hU : HashDet U) (hM : ClockMono U) :
     ∀ (logs : List (OMap × OMap)) (L : Log), Good U L → Closed L → BatchHonest U L.id logs →
       BatchParents L logs →
-      Closed (joinAllPinned acl L logs).1 ∧
-      ((joinAllPinned acl L logs).2 = true → BatchCovered logs →
-        ∀ p ∈ logs, ∀ e ∈ p.1, e ∈ (joinAllPinned acl L logs).1.entries) := by
+      Closed (joinAll acl L logs) ∧
+      (BatchCovered logs → ∀ e ∈ joinedEntries acl L logs, e ∈ (joinAll acl L logs).entries) := by
   intro logs
   induction logs with
-  | nil => intro L _ hC _ _; exact ⟨hC, fun _ _ p hp => by cases hp⟩
+  | nil => intro L _ hC _ _; exact ⟨hC, fun _ e he => by cases he⟩
   | cons q rest ih =>
     intro L hG hC hB hP
     obtain ⟨es, hs⟩ := q
-    rw [joinAll_cons]
+    have hBr : BatchHonest U L.id rest := fun q hq => hB q (List.mem_cons_of_mem _ hq)
+    rw [joinAll_cons, joinedEntries_cons]
     cases hj : join acl.canAppend L es hs L.id with
-    | error _ => exact ⟨hC, fun h => by cases h⟩
+    | error _ =>
+      obtain ⟨h1, h2⟩ := ih L hG hC hBr (fun q hq => hP q (List.mem_cons_of_mem _ hq))
+      exact ⟨h1, fun hcov => h2 (fun q hq => hcov q (List.mem_cons_of_mem _ hq))⟩
     | ok L' =>
       obtain ⟨hA, hid⟩ := hB (es, hs) List.mem_cons_self
       have hpar : ParentsIn es L := hP (es, hs) List.mem_cons_self
       have hG' : Good U L' := good_step hU hM hG (.join L L' es hs L.id hA hid hj)
       have hid' : L'.id = L.id := join_id hj
       have hC' : Closed L' := join_closed hU hG.inv hA hid hC hpar hj
-      have hB' : BatchHonest U L'.id rest := fun q hq => by
-        rw [hid']; exact hB q (List.mem_cons_of_mem _ hq)
       have hP' : BatchParents L' rest := fun q hq e he n hn =>
         (hP q (List.mem_cons_of_mem _ hq) e he n hn).imp id (has_mono (join_mono hj))
-      obtain ⟨h1, h2⟩ := ih L' hG' hC' hB' hP'
+      obtain ⟨h1, h2⟩ := ih L' hG' hC' (hid' ▸ hBr) hP'
       refine ⟨h1, ?_⟩
-      intro hok hcov p hp e he
-      rcases List.mem_cons.mp hp with rfl | hp
-      · exact (joinAll_good (acl := acl) hU hM rest L' hG' hB').2.2 e
+      intro hcov e he
+      rcases List.mem_append.mp he with he | he
+      · exact joinAll_mono acl rest L' e
           (join_all_in hU hG.inv hA hid hC hpar (hcov _ List.mem_cons_self) hj e he)
-      · exact h2 hok (fun q hq => hcov q (List.mem_cons_of_mem _ hq)) p hp e he
+      · exact h2 (fun q hq => hcov q (List.mem_cons_of_mem _ hq)) e he
 
 end Orbit
